@@ -24,15 +24,39 @@ def strategy():
     return st.one_of(G.config(max_levels=1, free_p=0.04, posonly=False), G.config(max_levels=2, free_p=0.04, posonly=False))
 
 
-def static_check(ctx, rc):
+def chain_functions(root, limit=20000):
+    """generated chain functions reachable from an application object (no attribute names assumed)"""
+    seen, out, todo = set(), [], [root]
+    while todo and len(seen) < limit:
+        o = todo.pop()
+        if id(o) in seen:
+            continue
+        seen.add(id(o))
+        if isinstance(o, types.FunctionType):
+            if o.__code__.co_filename.startswith('<sinter generated'):
+                out.append(o)
+                todo.append(o.__globals__.get('funcs'))
+                todo.extend(v for v in o.__globals__.values() if isinstance(v, types.FunctionType) and
+                            v.__code__.co_filename.startswith('<sinter generated'))
+            continue
+        if isinstance(o, (types.ModuleType, type, str, bytes, int, float)) or o is None:
+            continue
+        if isinstance(o, types.MethodType):
+            todo.append(o.__func__)
+            todo.append(o.__self__)
+            continue
+        try:
+            todo.extend(gc.get_referents(o))
+        except Exception:
+            pass
+    return out
+
+
+def static_check(ctx, rc, root):
     """every call funcs[i](k=v, ...) in generated code: k == v, k declared by funcs[i], v bound by an enclosing def"""
     found = 0
-    for fn in gc.get_objects():
-        if not isinstance(fn, types.FunctionType):
-            continue
+    for fn in chain_functions(root):
         fname = fn.__code__.co_filename
-        if not fname.startswith('<sinter generated'):
-            continue
         funcs = fn.__globals__.get('funcs')
         entry = linecache.cache.get(fname)
         if funcs is None or not entry or fn.__globals__.get(fn.__name__) is not fn:
@@ -95,11 +119,11 @@ def body(cfg, ctx):
     ctx.event('levels-%d' % len(cfg['levels']))
     obs = J.serve(ctx, cfg, built, plan, cfg, sources=True, n_requests=2)
     _count[0] += 1
-    if _count[0] % 10 == 1:
-        n = static_check(ctx, cfg)
-        ctx.event('static-chains-parsed', n)
-        if not n:
-            ctx.note('no generated chain sources found in linecache: static part skipped')
+    n = static_check(ctx, cfg, built.app)
+    ctx.event('static-chains-parsed', n)
+    if not n:
+        ctx.event('static-part-skipped')
+        ctx.note('no generated chain sources found for some configurations: static part skipped there')
     view = plan.route
     nt = obs.get('provided_differs', False)
     for fid, kinds in obs.get('kinds', {}).items():
@@ -137,4 +161,3 @@ def run_shard(spec, ctx):
 
 def replay(case, kind, ctx):
     body(case, ctx)
-    static_check(ctx, case)
